@@ -26,10 +26,7 @@ Record method_in := {
   mi_gen : string;                         (* method generics + where clause, carried opaquely; "" = none *)
   mi_params : list param;                  (* typed parameters, receiver excluded *)
   mi_ret : option ty; mi_docs : list string;
-  mi_slf_ok : bool;                        (* return type is one of the documented compliant forms (C09) *)
-  mi_long : bool                           (* the signature mentions Self and is longer than one line (78 columns) of the compiler's
-                                              token printer: model::includes / model::replace search the PRINTED signature for " Self ",
-                                              a line break next to the token hides it (known finding long-signature-self) *) }.
+  mi_slf_ok : bool                         (* return type is one of the documented compliant forms (C09) *) }.
 
 Record cfg := {
   c_lib : lib; c_recv : mrecv; c_filter : option fset; c_debut : bool;
@@ -94,7 +91,7 @@ Definition second_sort (c : cfg) (m : method_in) : sort2 :=
 
 Definition is_ctor_name (n : string) := String.eqb n "new" || String.eqb n "try_new".
 
-Inductive diag := DFilterParse | DInterName | DFamMutRef | DSelfPath | DUnknownName | DNoNew | DAsyncStd.
+Inductive diag := DFilterParse | DInterName | DFamMutRef | DUnknownName | DNoNew | DAsyncStd.
 Inductive res (A : Type) := Ok (a : A) | Diag (d : diag).
 Arguments Ok {A} a. Arguments Diag {A} d.
 
@@ -133,28 +130,41 @@ Record live_met := {
   lm_params : list ty; lm_ret : option ty; lm_docs : list string; lm_gen : string;
   lm_bounds : bool                        (* Send + Sync + 'static added to the method's own generic parameters *) }.
 
-(* model::replace of ` Self ` by the actor type, token-wise *)
-Definition subst_self (a : ty) (t : ty) : ty := flat_map (fun x => if String.eqb x "Self" then a else [x]) t.
-Fixpoint has_self_path (t : ty) : bool :=
+(* generics::turbofish::from_type_path on the actor type (a plain path whose generic arguments sit on the last segment):
+   `A < T >` -> `A :: < T >`, `A` -> `A` *)
+Fixpoint turbo_aux (prev_colon : bool) (t : ty) : ty :=
   match t with
-  | x :: r => (String.eqb x "Self" && match r with y :: _ => String.eqb y "::" | [] => false end) || has_self_path r
-  | [] => false end.
+  | [] => []
+  | x :: r => if String.eqb x "<" then (if prev_colon then t else "::" :: t) else x :: turbo_aux (String.eqb x "::") r
+  end.
+Definition turbo (t : ty) : ty := turbo_aux false t.
+
+(* substitute_args_type_and_return_type: model::replace of ` Self :: ` by `<turbofish of the actor type> ::`, then of ` Self ` by the
+   actor type; token-wise, one pass *)
+Fixpoint subst_self (a tb : ty) (t : ty) : ty :=
+  match t with
+  | [] => []
+  | x :: r =>
+      if String.eqb x "Self" then
+        match r with
+        | y :: r' => if String.eqb y "::" then tb ++ "::" :: subst_self a tb r' else a ++ subst_self a tb r
+        | [] => a
+        end
+      else x :: subst_self a tb r
+  end.
 Definition has_gen (m : method_in) := negb (String.eqb (mi_gen m) "").
 Definition live_params (k : cls) (via : bool) (m : method_in) : list param :=
   if via then tl (mi_params m) else mi_params m.
-Definition sig_self_path (ps : list param) (r : option ty) : bool :=
-  existsb (fun p => has_self_path (p_ty p)) ps || match r with Some t => has_self_path t | None => false end.
-
-(* what the macro does to a parameter / return type; on a wrapped (long) signature the faithful model is "left as written" *)
-Definition sub (c : cfg) (m : method_in) (t : ty) : ty := if mi_long m then t else subst_self (c_actor_ty c) t.
+(* what the macro does to a parameter / return type *)
+Definition sub (c : cfg) (t : ty) : ty := subst_self (c_actor_ty c) (turbo (c_actor_ty c)) t.
 
 Definition mk_live (c : cfg) (k : cls) (via : bool) (m : method_in) : live_met :=
   {| lm_from := m; lm_name := mi_name m;
      lm_vis := match k with CSlf => if c_debut c && mi_slf_ok m then mi_vis m else VInh | _ => mi_vis m end;
      lm_async := match k with CStat => mi_async m | _ => negb (is_std (c_lib c)) || mi_async m end;
      lm_recv := match k with CRef b => LRef b | CSlf => LVal | CStat => LNone end;
-     lm_params := map (fun p => sub c m (p_ty p)) (live_params k via m);
-     lm_ret := option_map (sub c m) (mi_ret m);
+     lm_params := map (fun p => sub c (p_ty p)) (live_params k via m);
+     lm_ret := option_map (sub c) (mi_ret m);
      lm_docs := mi_docs m; lm_gen := mi_gen m;
      lm_bounds := match k with CRef _ => has_gen m | _ => false end |}.
 
@@ -173,7 +183,6 @@ Fixpoint process (c : cfg) (f : fset) (ms : list method_in) : res (fset * list l
         if mem (mi_name m) (inter_set c) then Diag DInterName else
         let (f', b) := condition f (mi_name m) in
         if b then
-          if sig_self_path (live_params k via m) (mi_ret m) then Diag DSelfPath else
           match process c f' r with
           | Ok (f'', l, n) => Ok (f'', mk_live c k via m :: l, n)
           | Diag d => Diag d end
@@ -296,9 +305,8 @@ Definition spec_params (c : cfg) (m : method_in) : list param :=
 
 Definition sig_spec (c : cfg) (m : method_in) (lm : live_met) : Prop :=
   lm_name lm = mi_name m /\ lm_docs lm = mi_docs m /\ lm_gen lm = mi_gen m
-  /\ (mi_long m = false -> lm_ret lm = option_map (subst_self (c_actor_ty c)) (mi_ret m))
-  /\ (mi_long m = false -> lm_params lm = map (fun p => subst_self (c_actor_ty c) (p_ty p)) (spec_params c m))
-  /\ List.length (lm_params lm) = List.length (spec_params c m)
+  /\ lm_ret lm = option_map (sub c) (mi_ret m)
+  /\ lm_params lm = map (fun p => sub c (p_ty p)) (spec_params c m)
   /\ lm_vis lm = (if consuming c m && negb (c_debut c && mi_slf_ok m) then VInh else mi_vis m)
   /\ lm_async lm = (if has_receiver c m then negb (is_std (c_lib c)) || mi_async m else mi_async m)
   /\ lm_recv lm = (match live_kind c m with CRef b => LRef b | CSlf => LVal | CStat => LNone end)
